@@ -14,7 +14,7 @@
 #include "kmodel.h"
 #include "pmodel.h"
 
-#define MAXW 10
+#define MAXW 48
 
 struct wrec {
 	struct iv_work_item *it;
